@@ -17,7 +17,18 @@ case     : `stack=tlcp|dtlcp suite=ecc-gcm|ecc-cbc|ecdhe-gcm|ecdhe-cbc scen=<nam
             error; absent = `--`.  The callbacks are inputs of the MODEL only: the spec never looks
             at them — what user code answers is no evidence about the peer, so a callback can make
             the client refuse but can never excuse a completion.)
-observed : `client=completed|failed(<class>) resumed=b hs_complete=b read=<n>`
+           (`enckey`: the peer holds the private key of the encryption certificate it presented —
+            scenario ground truth, evidence for the SPEC only; absent = 1.)
+           (`rand=<kind>` with `pmsseen=b rfirst=<k>|-`: the client's Config.Rand is a logging reader
+            that delivers short reads; `pmsseen`: the driver opened a ClientKeyExchange of an ECC
+            suite; `rfirst`: bytes the reader delivered on the first call that asked for the 46
+            random bytes of the pre-master secret.)
+observed : `client=completed|failed(<class>) resumed=b hs_complete=b read=<n> [pms=<n>|-]`
+           (`pms`, with `rand=` only: how many leading bytes of the random part of the pre-master
+            secret the client encrypted are a contiguous run of the reader's output.  The model
+            predicts it from the shape of the source: all 46 with io.ReadFull whatever the reader's
+            schedule — the prediction is made for the schedule "rfirst bytes, then one per call" —
+            and only what one call delivered otherwise.)
 
 The model is run over the *symbolic* description of the signature (who signed, over which
 randoms and parameters) with the term-algebra `verify`; the spec is evaluated over the
@@ -159,6 +170,10 @@ def judge (c o : String) : Option Verdict := do
     | _ => none)
   if sevict != "none" && sevict != "window" && sevict != "afterload" then none
   let ob ← parseObs o
+  let enckey := (kvBool t "enckey").getD true
+  let randKind := kv t "rand"
+  let pmsseen := (kvBool t "pmsseen").getD false
+  let rfirst : Nat := ((kv t "rfirst").bind String.toNat?).getD 0
   -- the view of the model
   let extra : CertView String String := { key := "extra", kind := .ecdsa, chainOK := true, der := "extra" }
   let firstTwo := (match c0 with | some x => [x] | none => []) ++ (match c1 with | some x => [x] | none => [])
@@ -182,6 +197,14 @@ def judge (c o : String) : Option Verdict := do
   let clsShown := if !mCompleted && !ob.completed then ob.cls else mStage
   let model :=
     s!"client={if mCompleted then "completed" else s!"failed({clsShown})"} resumed={b01 mDidResume} hs_complete={b01 (res.result.handshakeStatus == 1)} read={if mCompleted then probeLen else 0}"
+  -- the entropy source: which bytes of the pre-master secret come from the reader
+  let pp := pmsParamsOf st
+  let pmsModel : String :=
+    if !pmsseen then "-" else
+    match pmsDrawn pp { stream := List.replicate (pp.len + 1) 0, sched := rfirst :: List.replicate pp.len 1 } with
+    | some n => toString n
+    | none => "error"
+  let model := if randKind.isSome then s!"{model} pms={pmsModel}" else model
   let note :=
     if !mCompleted && !ob.completed && !stageMatches mStage ob.cls then s!"stage:model={mStage},impl={ob.cls}"
     else if mCompleted && ob.completed && !res.resumed &&
@@ -192,7 +215,7 @@ def judge (c o : String) : Option Verdict := do
   let chainOf (x : Option (CertView String String)) : Bool := match x with | some y => y.chainOK | none => false
   let ev : Evidence :=
     { certCount := ncerts, sigChainOK := chainOf c0, encChainOK := chainOf c1, skxPresent := skxP,
-      sigValidOverThis := sigvalid && wf, finishedCorrect := fin }
+      sigValidOverThis := sigvalid && wf, finishedCorrect := fin, kexKeyHeld := enckey }
   let sev : Option SessionEvidence := sess.map fun (n, a, b) =>
     { certCount := n, sigChainNow := a, encChainNow := b, finishedCorrect := sfin }
   let observation : Observation :=
